@@ -26,7 +26,7 @@ MANIFEST = dict(
          "in an outer scope and a catch-all, and the probe triple (state lookups, metrics scope, task group) taken "
          "before entering is compared with the one taken right after the block was left, together with the identity "
          "of the exception that left it. Sync scopes and updates - and several nested blocks left by one Exception / "
-         "BaseException up to a catch-all (Try / Raise, action property Restored) - are in Scopes.tla, checked by C01/C03.",
+         "BaseException up to a catch-all (Try / Raise, action property Restored) - are in Scopes.tla, checked by C01/C03. Also: one prepared update object in use twice at the same time (two tasks overlapping, each leaving first in turn; one task nested in itself) - refused or a block of its own, everybody gets back the context they had (directed programs validated against Scopes.tla).",
     technique="TLA+ spec + TLC exhaustive model checking of fault and cancellation placements; edge-complete graph "
               "replay into the implementation through gated doubles",
     design="5/C02")
